@@ -57,6 +57,11 @@ class ExplorationBudget(BaseException):
     pass
 
 
+class ReplayDivergence(ExplorationBudget):
+    """The re-execution of a recorded decision prefix met another kind of decision than recorded
+    (the explored function is not deterministic in its decisions): the item is inconclusive."""
+
+
 def _q(fr: Fraction):
     return z3.RealVal(str(fr.numerator) + "/" + str(fr.denominator)) if fr.denominator != 1 else z3.RealVal(fr.numerator)
 
@@ -331,6 +336,25 @@ class SReal:
     def __index__(self):
         raise SymbolicConcretisation("symbolic real used as an index")
 
+    # -- rounding: exact z3 semantics (ToInt is floor) -----------------------
+    def __floor__(self):
+        import math as _m
+        if self.c is not None:
+            return SReal.const(_m.floor(self.c))
+        return SReal(z3.ToReal(z3.ToInt(self.t)))
+
+    def __ceil__(self):
+        import math as _m
+        if self.c is not None:
+            return SReal.const(_m.ceil(self.c))
+        return SReal(-z3.ToReal(z3.ToInt(-self.t)))
+
+    def floor(self):   # numpy object-array dispatch
+        return self.__floor__()
+
+    def ceil(self):
+        return self.__ceil__()
+
     def __format__(self, spec):
         if self.c is not None:
             return format(float(self.c), spec)
@@ -545,24 +569,32 @@ class Explorer:
         return r != z3.unsat
 
     def branch(self, t) -> bool:
+        # literal conditions are never decisions (checked first so that a replay stays aligned)
+        st = z3.simplify(t)
+        if z3.is_true(st):
+            return True
+        if z3.is_false(st):
+            return False
         pos = len(self.decisions)
         if pos < len(self.prefix):
             d = self.prefix[pos]
+            if isinstance(d, tuple) and d and d[0] == "F":
+                # a branch whose outcome was forced by the path condition when this prefix was recorded:
+                # replayed as recorded (it is implied by the pc, nothing is added)
+                self.decisions.append(d)
+                return d[1]
+            if not isinstance(d, bool):
+                raise ReplayDivergence(f"replay diverged at decision {pos}: expected a branch outcome, prefix holds {d!r}")
         else:
-            st = z3.simplify(t)
-            if z3.is_true(st):
-                return True
-            if z3.is_false(st):
-                return False
             f_true = self._feasible(t)
             f_false = self._feasible(z3.Not(t))
             if f_true and f_false:
                 self.todo.append(self.decisions + [False])
                 d = True
-            elif f_true:
-                return True  # forced: not a decision
-            elif f_false:
-                return False
+            elif f_true or f_false:
+                # forced: recorded as a marker so that replays of longer prefixes consume it in the same position
+                self.decisions.append(("F", bool(f_true)))
+                return bool(f_true)
             else:
                 STATS.aborted_paths += 1
                 raise PathAbort("infeasible path condition")
@@ -578,6 +610,8 @@ class Explorer:
         pos = len(self.decisions)
         if pos < len(self.prefix):
             i = self.prefix[pos]
+            if isinstance(i, (bool, tuple)) or not isinstance(i, int) or i >= len(options):
+                raise ReplayDivergence(f"replay diverged at decision {pos}: expected a choice index for {name}, prefix holds {i!r}")
         else:
             i = 0
             for j in range(len(options) - 1, 0, -1):
